@@ -173,5 +173,7 @@ def generate_set_of_p(set_of_predicate: SetOfPredicate) -> Iterator:
     predicate = set_of_predicate.predicate
 
     values = take(10, generate_false(predicate))
+    if not values:
+        return  # every element satisfies the predicate, so every set does
 
     yield set(random_combination_with_replacement(values, 5))
